@@ -639,3 +639,9 @@ impl<'s, M: Matcher, S: Sink> Core<'s, M, S> {
         false
     }
 }
+
+#[cfg(kani)]
+mod verif_kani {
+    use super::*;
+    include!(concat!(env!("RG_VERIF_KANI_DIR"), "/searcher/core.rs"));
+}
